@@ -14,6 +14,15 @@ ops (one per line; `T` = timeout in ms or `-`):
   `stop a reply:v|drop|keep|detach`       → graceful stop: the blocked handler (if any) finishes with the
                                              given action, then the actor stops: `handled p …|fwd v|idle`, events
   `advance d`                             → events
+  `fail a err|panic`                      → `failed p|failed-fwd v|idle`, events: the handler of a's current message
+                                             returns Err / panics (ActorFailed: no state handed on)
+  `spawnsup`                              → `ok`      (a supervisor; own index space)
+  `spawnl u`                              → `ok|failed` (callee spawned linked to supervisor u)
+  `suphandle u stash|drop`                → `evt a|idle`, events: u finishes handling the termination event (with
+                                             the child's last state) at the head of its queue
+  `supdrop u a`                           → `dropped|noevent`, events: u drops the stashed event of actor a
+  `supexit u`                             → events: u is killed (queue + stash dropped, children killed)
+  (`later p …` on a port inside a STASHED state = the supervisor takes it out of the state and uses it)
 events: ` | ` then `;`-separated, sorted: `done p=R`, `fdone p=R[+ok|+senderr]`, `mdone g=R1,R2…|err`
 with `R ::= success:v | senderError | timeout | sendErr`.
 -/
@@ -39,7 +48,7 @@ def parseAct? (s : String) : Option Act :=
 def parseT? (s : String) : Option (Option Nat) :=
   if s == "-" then some none else s.toNat?.map some
 
-def groupMembers (s : S) (g : Nat) : List (Nat × Call) :=
+def groupMembersIdx (s : S) (g : Nat) : List (Nat × Call) :=
   (List.zip (List.range s.calls.length) s.calls).filter (fun pc => pc.2.group == some g)
 
 /-- events produced by one model step -/
@@ -54,8 +63,12 @@ def events (before after : S) : List String :=
         | some r =>
           match c.forward with
           | some f =>
+            -- the forward this completion performed, from the model's ghost log of forwards
             let fwdOk := match r with
-              | .success _ => if accepting after f then "+ok" else "+senderr"
+              | .success _ =>
+                (match after.fwdlog.find? (fun (e : Nat × Nat × Nat × Bool) => e.1 == p) with
+                 | some e => if e.2.1 == f && e.2.2.2 then "+ok" else "+senderr"
+                 | none => "+no-forward")
               | _ => ""
             some s!"fdone {p}={match r with | .success _ => "success" | o => showRes o}{fwdOk}"
           | none => some s!"done {p}={showRes r}"
@@ -63,13 +76,14 @@ def events (before after : S) : List String :=
       else none
     | none => none)
   let groups : List String := (List.range after.groups).filterMap (fun g =>
-    let ms := groupMembers after g
+    let ms := groupMembersIdx after g
     let doneNow := ms.all (fun pc => pc.2.res.isSome)
-    let doneBefore := g < before.groups && (groupMembers before g).all (fun pc => pc.2.res.isSome)
-      && (groupMembers before g).length == ms.length
+    let doneBefore := g < before.groups && (groupMembersIdx before g).all (fun pc => pc.2.res.isSome)
+      && (groupMembersIdx before g).length == ms.length
     if doneNow && !doneBefore then
       if ms.any (fun pc => pc.2.res == some .sendErr || pc.2.res == some .abandoned) then some s!"mdone {g}=err"
-      else some s!"mdone {g}={",".intercalate (ms.map (fun pc => (pc.2.res.map showRes).getD "?"))}"
+      -- the vector `multi_call` returns: the model's result vector (written through the threaded slots)
+      else some s!"mdone {g}={",".intercalate (((after.mresults[g]?).getD []).map (fun r => (r.map showRes).getD "?"))}"
     else none)
   single ++ groups
 
@@ -88,6 +102,7 @@ structure ICall where
   done : Bool
   fwd : Option Nat := none
   group : Option Nat := none
+  tmo : Option Nat := none       -- the timeout the caller gave (travels with the port: `get_timeout`)
 
 structure OS where
   now : Nat := 0
@@ -95,6 +110,9 @@ structure OS where
   replies : List (Nat × Nat) := []        -- (port, value) actually sent by the real callee
   groups : List (List Nat) := []          -- member ports per multi_call group
   expectFwd : List (Nat × Nat) := []      -- (target, value) forwards announced by `fdone …+ok`
+  dead : List Nat := []                   -- actors the implementation reported as stopped (`# died …`)
+  asup : List (Option Nat) := []          -- per spawned actor: the supervisor it was linked to
+  supsAlive : List Bool := []             -- per supervisor: not yet killed by the harness
 
 structure DS where
   m : S := init
@@ -143,6 +161,9 @@ def judge (o : OS) (evs : List String) : OS × List String := Id.run do
         match o.calls[i]? with
         | some c =>
           if c.done then bad := bad ++ ["c09.call-completed-twice"]
+          -- SenderError only once the port is gone: never while a live actor, a detached task or a
+          -- termination event still held by a supervisor owns it
+          if r.startsWith "senderError" && c.hold != .gone then bad := bad ++ ["c09.sender-error-but-port-held"]
           if r.startsWith "timeout" then
             match c.deadline with
             | some d => if o.now < d then bad := bad ++ ["c09.timeout-early"]
@@ -158,7 +179,9 @@ def judge (o : OS) (evs : List String) : OS × List String := Id.run do
             for (p, ri) in List.zip ms rs do
               match successVal ri with
               | some v => if !(o.replies.contains (p, v)) then bad := bad ++ ["c09.multi-call-out-of-order-or-cross-wired"]
-              | none => pure ()
+              | none =>
+                if ri == "senderError" && (o.calls[p]?).any (fun c => c.hold != .gone) then
+                  bad := bad ++ ["c09.sender-error-but-port-held"]
           o := { o with calls := ms.foldl (fun cs p => cs.modify p (fun c => { c with done := true })) o.calls }
         | none => bad := bad ++ ["c09.unknown-group"]
     | none => if e != "" then bad := bad ++ ["unparsable-event"]
@@ -181,10 +204,25 @@ def killHolds (o : OS) (a : Nat) : OS :=
   { o with calls := o.calls.map (fun c =>
       if c.hold == .mailbox a || c.hold == .kept a then { c with hold := .gone } else c) }
 
+/-- the last state of `a` is gone (never boxed, or its event was dropped): the ports in it are dropped -/
+def dropState (o : OS) (a : Nat) : OS :=
+  { o with calls := o.calls.map (fun c => if c.hold == .kept a then { c with hold := .gone } else c) }
+
+def supLive (o : OS) (a : Nat) : Bool :=
+  match (o.asup[a]?).join with
+  | some u => (o.supsAlive[u]?).getD false
+  | none => false
+
+/-- graceful exit of `a` (stop / drain completion): the mailbox is dropped; the state — with the
+ports kept in it — is dropped too UNLESS a live supervisor receives it inside the termination event -/
+def gracefulHolds (o : OS) (a : Nat) : OS :=
+  let o1 := { o with calls := o.calls.map (fun c => if c.hold == .mailbox a then { c with hold := .gone } else c) }
+  if supLive o a then o1 else dropState o1 a
+
 /-- `handled p [sent-ok|sent-err]` -/
 def applyHandled (o : OS) (a : Nat) (pre : String) (act : Act) : OS :=
   match words pre with
-  | "handled" :: p :: rest =>
+  | "handled" :: p :: _ :: rest =>
     match p.toNat? with
     | some p =>
       match act with
@@ -195,33 +233,61 @@ def applyHandled (o : OS) (a : Nat) (pre : String) (act : Act) : OS :=
     | none => o
   | _ => o
 
-def modelHandlePre (before : S) (a : Nat) (act : Act) : String :=
+def showT (t : Option Nat) : String := match t with | some t => toString t | none => "-"
+
+/-- `get_timeout` of the dequeued port must be the timeout its caller gave -/
+def timeoutClause (o : OS) (ipre : String) : List String :=
+  match words ipre with
+  | "handled" :: p :: t :: _ =>
+    match p.toNat? with
+    | some p => if t == s!"t={showT ((o.calls[p]?).bind (·.tmo))}" then [] else ["c09.port-timeout-mismatch"]
+    | none => []
+  | _ => []
+
+def modelHandlePre (o : OS) (before : S) (a : Nat) (act : Act) : String :=
   match before.actors[a]? with
   | some x =>
     if !x.alive then "idle" else
     match x.mailbox with
     | .call p :: _ =>
+      let t := showT ((o.calls[p]?).bind (·.tmo))
       match act with
       | .reply _ =>
         let open_ := match before.calls[p]? with | some c => c.res.isNone | none => false
-        s!"handled {p} {if open_ then "sent-ok" else "sent-err"}"
-      | _ => s!"handled {p}"
+        s!"handled {p} t={t} {if open_ then "sent-ok" else "sent-err"}"
+      | _ => s!"handled {p} t={t}"
     | .fwd v :: _ => s!"fwd {v}"
     | [] => "idle"
   | none => "idle"
 
-def step (ds : DS) (op impl : String) : DS × StepOut :=
+/-- `obs # died a,b` → (obs, [a,b]) -/
+def splitDied (impl : String) : String × List Nat :=
+  match impl.splitOn " # died " with
+  | [o, d] => (o, (natList? d).getD [])
+  | _ => (impl, [])
+
+def step (ds : DS) (op implFull : String) : DS × StepOut :=
+  let (impl, idied) := splitDied implFull
   let (ipre, ievs) := parseEvents impl
   -- actors that stop in this step (kill, stop, or a draining actor reaching its marker) drop
   -- every port they still own
-  let died (m m' : S) (o : OS) : OS :=
-    (List.range m'.actors.length).foldl (fun o a =>
+  -- which actors stopped is the IMPLEMENTATION's report (`# died …`); deaths not already accounted for by
+  -- the op itself (kill / failure / supervisor death) are graceful: stop or drain completion
+  let died (o : OS) : OS :=
+    idied.foldl (fun o a =>
+      let o := gracefulHolds o a
+      -- a forward owed to an actor that stops is no longer owed
+      { o with expectFwd := o.expectFwd.filter (fun fv => fv.1 != a), dead := a :: o.dead }) o
+  -- the model's own account of who stopped in this step, in the same format
+  let modelDied (m m' : S) : String :=
+    let l := (List.range m'.actors.length).filter (fun a =>
       match m.actors[a]?, m'.actors[a]? with
-      | some x, some x' => if x.alive && !x'.alive then killHolds o a else o
-      | _, _ => o) o
+      | some x, some x' => x.alive && !x'.alive
+      | _, _ => false)
+    if l.isEmpty then "" else s!" # died {",".intercalate (l.map toString)}"
   let finish (m' : S) (pre : String) (o' : OS) (nt : Bool) (extraBad : List String := []) : DS × StepOut :=
-    let model := fmt pre (events ds.m m')
-    let (o2, bad) := judge (died ds.m m' o') ievs
+    let model := fmt pre (events ds.m m') ++ modelDied ds.m m'
+    let (o2, bad) := judge (died o') ievs
     ({ m := m', o := o2 }, { model := model, oracle := extraBad ++ bad ++ hanging o2, nontrivial := nt })
   let run1 (mop : Op) (pre : String) (o' : OS) (nt : Bool) : DS × StepOut :=
     finish (Rpc.step ds.m mop) pre o' nt
@@ -231,21 +297,61 @@ def step (ds : DS) (op impl : String) : DS × StepOut :=
     let orc := (if ipre.startsWith "invalid-type" then [] else ["c02.wrong-type-not-rejected"]) ++
                (if ipre.endsWith "actor-died" then ["c02.wrong-type-disturbed-actor"] else [])
     finish ds.m "invalid-type undisturbed" ds.o true orc
+  -- an op the harness refused (it names an actor / supervisor that does not exist — only a
+  -- shrunk replay can contain one) is not an op: nothing happened, nothing is judged
+  if ipre == "bad-actor" || ipre == "bad-sup" then (ds, { model := ipre }) else
   match words op with
   | ["case"] => ({}, { model := "ok" })
-  | ["spawn"] => run1 .spawn "ok" ds.o false
+  | ["spawn"] => run1 .spawn "ok" { ds.o with asup := ds.o.asup ++ [none] } false
+  | ["spawnsup"] => run1 .spawnSup "ok" { ds.o with supsAlive := ds.o.supsAlive ++ [true] } false
+  | ["spawnl", u] =>
+    match u.toNat? with
+    | some u =>
+      let o' := if ipre == "ok" then { ds.o with asup := ds.o.asup ++ [some u] } else ds.o
+      run1 (.spawnl u) (if supAlive ds.m u then "ok" else "failed") o' false
+    | none => (ds, { model := "bad-op" })
+  | ["suphandle", u, what] =>
+    match u.toNat? with
+    | some u =>
+      let keep := what == "stash"
+      let pre := match ds.m.sups[u]? with
+        | some x => if x.alive then (match x.inbox with | a :: _ => s!"evt {a}" | [] => "idle") else "idle"
+        | none => "idle"
+      -- the real supervisor dropped the event of the actor it names: the state in it is gone
+      let o' := match words ipre with
+        | ["evt", a] => (match a.toNat? with | some a => if keep then ds.o else dropState ds.o a | none => ds.o)
+        | _ => ds.o
+      run1 (.suphandle u keep) pre o' (ipre.startsWith "evt")
+    | none => (ds, { model := "bad-op" })
+  | ["supdrop", u, a] =>
+    match u.toNat?, a.toNat? with
+    | some u, some a =>
+      let pre := match ds.m.sups[u]? with
+        | some x => if x.alive && x.stash.contains a then "dropped" else "noevent"
+        | none => "noevent"
+      run1 (.supdrop u a) pre (if ipre == "dropped" then dropState ds.o a else ds.o) (ipre == "dropped")
+    | _, _ => (ds, { model := "bad-op" })
+  | ["supexit", u] =>
+    match u.toNat? with
+    | some u =>
+      -- the supervisor's queue and stash are dropped and its children are killed
+      let o1 := { ds.o with supsAlive := ds.o.supsAlive.set u false }
+      let o' := (List.range o1.asup.length).foldl (fun o a =>
+        if (o1.asup[a]?).join == some u then killHolds o a else o) o1
+      run1 (.supexit u) "ok" o' true
+    | none => (ds, { model := "bad-op" })
   | ["call", a, t] =>
     match a.toNat?, parseT? t with
     | some a, some t =>
       let sendErr := ievs.any (fun e => e.endsWith "=sendErr")
-      let o' := { ds.o with calls := ds.o.calls ++ [⟨a, t.map (· + ds.o.now), if sendErr then .gone else .mailbox a, false, none, none⟩] }
+      let o' := { ds.o with calls := ds.o.calls ++ [⟨a, t.map (· + ds.o.now), if sendErr then .gone else .mailbox a, false, none, none, t⟩] }
       run1 (.call a t) "ok" o' false
     | _, _ => (ds, { model := "bad-op" })
   | ["fcall", a, f, t] =>
     match a.toNat?, f.toNat?, parseT? t with
     | some a, some f, some t =>
       let sendErr := ievs.any (fun e => e.endsWith "=sendErr")
-      let o' := { ds.o with calls := ds.o.calls ++ [⟨a, t.map (· + ds.o.now), if sendErr then .gone else .mailbox a, false, some f, none⟩] }
+      let o' := { ds.o with calls := ds.o.calls ++ [⟨a, t.map (· + ds.o.now), if sendErr then .gone else .mailbox a, false, some f, none, t⟩] }
       run1 (.fcall a f t) "ok" o' true
     | _, _, _ => (ds, { model := "bad-op" })
   | ["mcall", as, t] =>
@@ -255,12 +361,13 @@ def step (ds : DS) (op impl : String) : DS × StepOut :=
       let base := ds.o.calls.length
       -- on a failed send the real multi_call created ports only up to the failing actor; the
       -- oracle tracks the successfully sent prefix as abandoned (no completion expected)
-      let news : List ICall := as.map (fun a => ⟨a, t.map (· + ds.o.now), if failed then .detached else .mailbox a, failed, none, some ds.o.groups.length⟩)
+      let news : List ICall := as.map (fun a => ⟨a, t.map (· + ds.o.now), if failed then .detached else .mailbox a, failed, none, some ds.o.groups.length, t⟩)
       let o' := { ds.o with calls := ds.o.calls ++ news, groups := ds.o.groups ++ [List.range' base as.length] }
       -- the model may create fewer ports when a send fails; keep port numbering aligned
       let m' := Rpc.step ds.m (.mcall as t)
       let pad := (base + as.length) - m'.calls.length
-      let m'' := { m' with calls := m'.calls ++ List.replicate pad ⟨0, none, .dropped, some .abandoned, some (m'.groups - 1), none⟩ }
+      let m'' := { m' with calls := m'.calls ++ (List.range pad).map (fun i =>
+        ⟨0, none, .dropped, some .abandoned, some (m'.groups - 1), none, m'.calls.length + i, 0⟩) }
       finish m'' "ok" o' true
     | _, _ => (ds, { model := "bad-op" })
   | ["handle", a, act] =>
@@ -276,7 +383,58 @@ def step (ds : DS) (op impl : String) : DS × StepOut :=
             else (o', ["c09.forward-duplicated-or-unannounced"])
           | none => (o', [])
         | _ => (o', [])
-      finish (Rpc.step ds.m (.handle a act)) (modelHandlePre ds.m a act) o'' (ipre.startsWith "handled") fbad
+      -- an announced (`+ok`) forward / accepted cast must reach the target's handler: an actor that
+      -- is alive, owed a message and reports an empty mailbox has lost it
+      let aliveM := !ds.o.dead.contains a
+      let fbad := fbad ++ (if ipre == "idle" && aliveM && o'.expectFwd.any (fun fv => fv.1 == a)
+        then ["c09.forward-announced-but-not-delivered"] else [])
+      finish (Rpc.step ds.m (.handle a act)) (modelHandlePre ds.o ds.m a act) o'' (ipre.startsWith "handled") (fbad ++ timeoutClause ds.o ipre)
+    | _, _ => (ds, { model := "bad-op" })
+  | ["handle", a, act, d] =>
+    -- `handle a act +d`: the handler's action and a clock jump of d in one step
+    match a.toNat?, parseAct? act, (d.drop 1).toNat? with
+    | some a, some act, some d =>
+      let o' := applyHandled ds.o a ipre act
+      let o' := { o' with now := o'.now + d }
+      let (o'', fbad) := match words ipre with
+        | ["fwd", v] =>
+          match v.toNat? with
+          | some v =>
+            if o'.expectFwd.contains (a, v) then ({ o' with expectFwd := o'.expectFwd.erase (a, v) }, [])
+            else (o', ["c09.forward-duplicated-or-unannounced"])
+          | none => (o', [])
+        | _ => (o', [])
+      finish (Rpc.step ds.m (.handleAt a act d)) (modelHandlePre ds.o ds.m a act) o'' true (fbad ++ timeoutClause ds.o ipre)
+    | _, _, _ => (ds, { model := "bad-op" })
+  | ["later", p, "probe"] =>
+    -- `RpcReplyPort::is_closed` of a port somebody still holds: closed iff its caller has gone
+    -- (timed out, or its multi_call bailed out); nothing changes
+    match p.toNat? with
+    | some p =>
+      let pre := match ds.m.calls[p]? with
+        | some c =>
+          let reachable := match c.loc with
+            | .actor _ => true | .detached => true | .event a => supStashed ds.m.sups a | _ => false
+          if reachable then (if c.res.isSome then "closed" else "open") else "noport"
+        | none => "noport"
+      -- judged on the implementation's own history: a port reported closed although its caller is
+      -- still waiting (no completion event seen, deadline not passed), or open although it completed
+      let orc := match ds.o.calls[p]? with
+        | some c =>
+          if ipre == "closed" && !c.done && c.group.isNone then ["c09.port-closed-but-caller-waiting"]
+          else if ipre == "open" && c.done && c.group.isNone then ["c09.port-open-but-caller-gone"] else []
+        | none => []
+      finish ds.m pre ds.o (ipre != "noport") orc
+    | none => (ds, { model := "bad-op" })
+  | ["cast", a, v] =>
+    match a.toNat?, v.toNat? with
+    | some a, some v =>
+      let pre := if accepting ds.m a then "ok" else "sendErr"
+      -- a delivered cast is owed to the target exactly once (checked when it is handled); a
+      -- refused one must hand back the very message (`sendErr`), nothing else
+      let o' := if ipre == "ok" then { ds.o with expectFwd := (a, v) :: ds.o.expectFwd } else ds.o
+      let orc := if ipre == "ok" || ipre == "sendErr" then [] else ["c09.cast-error-not-own-message"]
+      finish (Rpc.step ds.m (.cast a v)) pre o' true orc
     | _, _ => (ds, { model := "bad-op" })
   | ["later", p, act] =>
     match p.toNat?, parseAct? act with
@@ -288,6 +446,8 @@ def step (ds : DS) (op impl : String) : DS × StepOut :=
            | .detached, .reply _ => if c.res.isNone then "sent-ok" else "sent-err"
            | .actor _, .drop => "dropped"
            | .detached, .drop => "dropped"
+           | .event a, .reply _ => if supStashed ds.m.sups a then (if c.res.isNone then "sent-ok" else "sent-err") else "noport"
+           | .event a, .drop => if supStashed ds.m.sups a then "dropped" else "noport"
            | _, _ => "noport")
         | none => "noport"
       let o' := match act with
@@ -299,23 +459,45 @@ def step (ds : DS) (op impl : String) : DS × StepOut :=
   | ["badcast", _] => badOp
   | ["badsend", _] => badOp
   | ["badcall", _] => badOp
+  | ["baddcast", _] => badOp
+  | ["baddsend", _] => badOp
+  | ["baddcall", _] => badOp
+  | ["baddafter", _] => badOp
   | ["exit", a] =>
     match a.toNat? with
-    | some a => run1 (.exit a) "ok" (killHolds ds.o a) true
+    | some a =>
+      -- a kill never boxes the state: everything the (still alive) actor owned is dropped; killing an
+      -- actor that already stopped does not touch a state a supervisor may still hold
+      run1 (.exit a) "ok" (if idied.contains a then killHolds ds.o a else ds.o) true
     | none => (ds, { model := "bad-op" })
   | ["stop", a, act] =>
     match a.toNat?, parseAct? act with
     | some a, some act =>
-      let pre := modelHandlePre ds.m a act
-      let o' := killHolds (applyHandled ds.o a ipre act) a
-      finish (Rpc.step ds.m (.stop a act)) pre o' true
+      let pre := modelHandlePre ds.o ds.m a act
+      let o' := gracefulHolds (applyHandled ds.o a ipre act) a
+      finish (Rpc.step ds.m (.stop a act)) pre o' true (timeoutClause ds.o ipre)
     | _, _ => (ds, { model := "bad-op" })
+  | ["fail", a, _] =>
+    match a.toNat? with
+    | some a =>
+      -- which message the failing handler held: the head of the queue
+      let pre := match ds.m.actors[a]? with
+        | some x => if !x.alive then "idle" else
+            (match x.mailbox with | .call p :: _ => s!"failed {p}" | .fwd v :: _ => s!"failed-fwd {v}" | [] => "idle")
+        | none => "idle"
+      -- a failure never hands the state on: everything the actor owned is dropped; a forwarded value the
+      -- failing handler held was delivered to it (it is no longer owed)
+      let o1 := if ipre.startsWith "failed" then killHolds ds.o a else ds.o
+      let o' := match words ipre with
+        | ["failed-fwd", v] => (match v.toNat? with | some v => { o1 with expectFwd := o1.expectFwd.erase (a, v) } | none => o1)
+        | _ => o1
+      run1 (.fail a) pre o' (ipre.startsWith "failed")
+    | none => (ds, { model := "bad-op" })
   | ["drain", a] =>
     match a.toNat? with
     | some a =>
-      -- an actor with an empty mailbox stops at once and drops what it kept
-      let idle := match ds.m.actors[a]? with | some x => x.mailbox.isEmpty | none => true
-      run1 (.drain a) "ok" (if idle then killHolds ds.o a else ds.o) true
+      -- (an actor with an empty mailbox stops at once: reported by `# died`)
+      run1 (.drain a) "ok" ds.o true
     | none => (ds, { model := "bad-op" })
   | ["advance", d] =>
     match d.toNat? with
@@ -328,6 +510,10 @@ def step (ds : DS) (op impl : String) : DS × StepOut :=
 def stripMacro (op : String) : String :=
   match words op with
   | ["call", a, t, "m"] => s!"call {a} {t}"
+  | ["call", a, t, "m0"] => s!"call {a} {t}"
+  | ["call", a, t, "f"] => s!"call {a} {t}"
+  | ["fcall", a, f, t, "f"] => s!"fcall {a} {f} {t}"
+  | ["cast", a, v, _] => s!"cast {a} {v}"
   -- ` d`: the same call issued through a `DerivedActorRef` (`get_derived`, converter closure)
   | ["call", a, t, "d"] => s!"call {a} {t}"
   | ["fcall", a, f, t, "m"] => s!"fcall {a} {f} {t}"
